@@ -41,7 +41,7 @@ func (p *Parser) parseExpression() (ast.Expression, error) {
 
 	// Handle OR operators (lowest precedence, left-associative)
 	for p.isType(models.TokenTypeOr) {
-		operator := p.currentToken.Literal
+		operator := p.keywordSpelling()
 		p.advance() // Consume OR
 
 		right, err := p.parseAndExpression()
@@ -88,7 +88,7 @@ func (p *Parser) parseAndExpression() (ast.Expression, error) {
 
 	// Handle AND operators (middle precedence, left-associative)
 	for p.isType(models.TokenTypeAnd) {
-		operator := p.currentToken.Literal
+		operator := p.keywordSpelling()
 		p.advance() // Consume AND
 
 		right, err := p.parseComparisonExpression()
@@ -168,7 +168,7 @@ func (p *Parser) parseComparisonExpression() (ast.Expression, error) {
 
 	// Check for LIKE/ILIKE operator
 	if p.isType(models.TokenTypeLike) || strings.EqualFold(p.currentToken.Literal, "ILIKE") {
-		operator := p.currentToken.Literal
+		operator := p.keywordSpelling()
 		p.advance() // Consume LIKE/ILIKE
 
 		// Parse pattern at the next tighter precedence level (string concatenation / arithmetic),
@@ -192,7 +192,7 @@ func (p *Parser) parseComparisonExpression() (ast.Expression, error) {
 
 	// Check for REGEXP/RLIKE operator (MySQL)
 	if strings.EqualFold(p.currentToken.Literal, "REGEXP") || strings.EqualFold(p.currentToken.Literal, "RLIKE") {
-		operator := strings.ToUpper(p.currentToken.Literal)
+		operator := p.keywordSpelling()
 		p.advance()
 		pattern, err := p.parsePrimaryExpression()
 		if err != nil {
